@@ -483,6 +483,8 @@ class Resolver:
                         getter = self.prog.classes[c].methods.get(n.attr)
                         if getter is not None and getter.kind == 'property':
                             s.calls.append((n, [getter], 'typed'))
+                        elif getter is not None:
+                            pass      # a bound method, not state
                         else:
                             s.reads.add((c, n.attr))
                 else:
